@@ -213,6 +213,8 @@ pub fn iv_u(i: &Interval<usize>) -> Iv {
 
 thread_local! {
     static LAST_PANIC: std::cell::RefCell<String> = const { std::cell::RefCell::new(String::new()) };
+    /// > 0 while a library call is being executed under `guard` (its panics are data, not errors)
+    static IN_GUARD: std::cell::Cell<u32> = const { std::cell::Cell::new(0) };
 }
 
 /// Installs a silent panic hook that records the message (and location) per thread.
@@ -233,13 +235,20 @@ pub fn install_panic_hook() {
                 format!(" @{}:{}", f, l.line())
             })
             .unwrap_or_default();
+        if IN_GUARD.with(|g| g.get()) == 0 {
+            // a panic of the harness itself (or of shuttle): never silent
+            eprintln!("[harness panic] {}{}", msg, info.location().map(|l| format!(" at {}:{}", l.file(), l.line())).unwrap_or_default());
+        }
         LAST_PANIC.with(|p| *p.borrow_mut() = format!("{}{}", msg, loc));
     }));
 }
 
 /// Runs a library call, converting a panic into a value.
 pub fn guard<T>(f: impl FnOnce() -> T) -> Result<T, String> {
-    match catch_unwind(AssertUnwindSafe(f)) {
+    IN_GUARD.with(|g| g.set(g.get() + 1));
+    let r = catch_unwind(AssertUnwindSafe(f));
+    IN_GUARD.with(|g| g.set(g.get() - 1));
+    match r {
         Ok(v) => Ok(v),
         Err(_) => Err(LAST_PANIC.with(|p| p.borrow().clone())),
     }
